@@ -145,6 +145,21 @@ fn listing_part(rep: &mut Report, thorough: bool) -> (u64, u64, Vec<Value>) {
             }
         }
     }
+    if thorough {
+        // every two-octet host name, and every three-octet one over the dangerous set
+        for a in 0..=255u8 {
+            for b in 0..=255u8 {
+                vals.push((Some(vec![a, b]), None));
+            }
+        }
+        for a in &d {
+            for b in &d {
+                for c in &d {
+                    vals.push((Some(vec![*a, *b, *c]), None));
+                }
+            }
+        }
+    }
     vals.push((Some(vec![b'a'; 255]), None));
     vals.push((Some((0..255u8).collect()), None));
     vals.push((Some(vec![0xe2, 0x80, 0xa8]), None)); // U+2028
@@ -290,7 +305,7 @@ pub fn run(tier: &str, replay: Option<Value>) -> ! {
     rep.cov("traces_validated_against_impl", n1 + n2);
     rep.cov("evaluations", n1 + n2);
     rep.cov("distinct_nontrivial", c1 + c2);
-    rep.cov("rule", "gauges: every lease store reachable by the exact-state search over handle_pkt (depth 3, thorough 4; plus the empty store after non-empty ones) x now in {each row's expiry -1, +0, +1}, read through GET /metrics of the real HTTP API on the real DhcpService; listing: one real DISCOVER per value of host-name option (every single octet, every octet between two letters, every pair of a 40-octet dangerous set, lengths 0/1/255, UTF-8 specials) and client identifier (every octet, empty, 255 octets), listing parsed by serde_json and compared entry by entry with the rows. states = distinct (row count, future count) / validity classes; transitions = gauge readings + leases listed");
+    rep.cov("rule", "gauges: every lease store reachable by the exact-state search over handle_pkt (depth 3, thorough 4; plus the empty store after non-empty ones) x now in {each row's expiry -1, +0, +1}, read through GET /metrics of the real HTTP API on the real DhcpService; listing: one real DISCOVER per value of host-name option (every single octet, every octet between two letters, every pair of a 40-octet dangerous set -- thorough: every two-octet name and every triple of the dangerous set --, lengths 0/1/255, UTF-8 specials) and client identifier (every octet, empty, 255 octets), listing parsed by serde_json and compared entry by entry with the rows. states = distinct (row count, future count) / validity classes; transitions = gauge readings + leases listed");
     rep.cov("exhaustive", true);
     rep.cov("parts", json!({"gauge_readings": n1, "leases_listed": n2}));
     rep.cov("samples", s1);
